@@ -334,6 +334,65 @@ def _():
     @property
     def name(self) -> str:""")
 
+@fix("D34", "fix: multi-constraints do not apply their value-based shortcuts to substring ('in' / 'not in') clauses")
+def _():
+    sub("constraints/generic/multi_constraint.py",
+        """        if other in self._constraints:
+            return self
+
+        if other.value in (c.value for c in self._constraints):
+            # same value but different operator, e.g. '== "linux"' and '!= "linux"'
+            return EmptyConstraint()
+
+        if other.operator == "==" and "==" not in self.OPERATORS:
+            return other
+
+        return self.__class__(*self._constraints, other)""",
+        """        if other in self._constraints:
+            return self
+
+        if "==" not in self.OPERATORS:
+            # single-valued: '== x' either satisfies all our clauses or none
+            if other.operator == "==":
+                return other if self.allows(other) else EmptyConstraint()
+            if other.invert() in self._constraints:
+                # e.g. "'x' in" and "'x' not in"
+                return EmptyConstraint()
+            return self.__class__(*self._constraints, other)
+
+        if other.value in (c.value for c in self._constraints):
+            # same value but different operator, e.g. '== "linux"' and '!= "linux"'
+            return EmptyConstraint()
+
+        return self.__class__(*self._constraints, other)""")
+    sub("constraints/generic/multi_constraint.py",
+        """    def union(self, other: BaseConstraint) -> BaseConstraint:
+        if isinstance(other, MultiConstraint):
+            theirs = set(other.constraints)""",
+        """    def union(self, other: BaseConstraint) -> BaseConstraint:
+        if isinstance(other, (MultiConstraint, Constraint)) and any(
+            c.operator in {"in", "not in"}
+            for c in (
+                *self._constraints,
+                *(other.constraints if isinstance(other, MultiConstraint) else [other]),
+            )
+        ):
+            # substring clauses do not simplify against values
+            if other in self._constraints:
+                return other
+            from poetry.core.constraints.generic import UnionConstraint
+
+            return UnionConstraint(self, other)
+
+        if isinstance(other, MultiConstraint):
+            theirs = set(other.constraints)""")
+
+@fix("D35", "fix: the union of two different \"not in\" substring constraints is not the universal constraint")
+def _():
+    sub("constraints/generic/constraint.py",
+        """                (ops in ({"!="}, {"not in"}))""",
+        """                (ops == {"!="})""")
+
 def main():
     id_ = sys.argv[1]
     msg, f = FIXES[id_]
